@@ -1,7 +1,7 @@
 (* C13 - Triangle validity verdict agrees with the sign of the Jacobian. Statements only. *)
-From Coq Require Import List Arith QArith Reals Qreals.
+From Coq Require Import List Arith ZArith QArith Qcanon Reals Qreals.
 From BZ Require Import Base.Ops Base.RInst Model.Curve Model.Triangle Model.AreaPoly Gen.PyTriangleHelpers
-  Theory.JacPoly Theory.TriPositivity.
+  Theory.JacPoly Theory.TriPositivity Base.QcInst Theory.Hom Theory.SignSound Theory.SignSoundR Theory.ValidSound Corr.C13.
 Import ListNotations.
 
 (* the returned net is the Bernstein net of det J, for ALL real control nets (tables regenerated from the source) *)
@@ -32,3 +32,37 @@ Theorem C13_bernstein_bounds :
   (lo <= tri_bernstein ROps d v l1 l2 l3 <= hi)%R.
 Proof. exact tri_bernstein_bounds. Qed.
 Print Assumptions C13_bernstein_bounds.
+
+(* SOUNDNESS ACROSS SUBDIVISION LEVELS: the loop of polynomial_sign (hand model: corner signs, uniform-sign test, 4-way
+   subdivision through the tables regenerated from the source, the bound _MAX_POLY_SUBDIVISIONS) answers +1 only if the
+   polynomial is positive at EVERY real point of the closed reference triangle, and -1 only if it is negative everywhere.
+   Degrees 1..4, every net of the right size.  (Composition of: the table path commutes with Qc -> R; tables = generic
+   blossoming (C09); a sub-net is the restriction to its quarter (blossoming theorem); the four quarters cover the triangle;
+   Bernstein bounds; the invariant of the loop over every fuel, pending list and sign set.) *)
+Theorem C13_polynomial_sign_plus_is_sound :
+  forall (d : nat) (poly : list Qc), (1 <= d <= 4)%nat -> length poly = tri_size d ->
+  polynomial_sign_py poly d = SignIs 1 ->
+  forall l1 l2 l3 : R, (0 <= l1 /\ 0 <= l2 /\ 0 <= l3 /\ l1 + l2 + l3 = 1)%R -> (0 < tri_bernstein ROps d (map Qc2R poly) l1 l2 l3)%R.
+Proof. exact polynomial_sign_positive_sound. Qed.
+Print Assumptions C13_polynomial_sign_plus_is_sound.
+Theorem C13_polynomial_sign_minus_is_sound :
+  forall (d : nat) (poly : list Qc), (1 <= d <= 4)%nat -> length poly = tri_size d ->
+  polynomial_sign_py poly d = SignIs (-1) ->
+  forall l1 l2 l3 : R, (0 <= l1 /\ 0 <= l2 /\ 0 <= l3 /\ l1 + l2 + l3 = 1)%R -> (tri_bernstein ROps d (map Qc2R poly) l1 l2 l3 < 0)%R.
+Proof. exact polynomial_sign_negative_sound. Qed.
+Print Assumptions C13_polynomial_sign_minus_is_sound.
+(* the verdict of Triangle.is_valid (model corresponded in Corr/C13.v): True only if det J > 0 on the whole closed triangle *)
+Theorem C13_is_valid_true_means_positive_jacobian_quadratic :
+  forall vx vy : list Qc, length vx = 6%nat -> length vy = 6%nat -> is_valid_py 2 vx vy = Some true ->
+  forall s t : R, (0 <= s)%R -> (0 <= t)%R -> (s + t <= 1)%R -> (0 < det_jacobian 2 (map Qc2R vx) (map Qc2R vy) s t)%R.
+Proof. exact is_valid_quadratic_sound. Qed.
+Print Assumptions C13_is_valid_true_means_positive_jacobian_quadratic.
+Theorem C13_is_valid_true_means_positive_jacobian_cubic :
+  forall vx vy : list Qc, length vx = 10%nat -> length vy = 10%nat -> is_valid_py 3 vx vy = Some true ->
+  forall s t : R, (0 <= s)%R -> (0 <= t)%R -> (s + t <= 1)%R -> (0 < det_jacobian 3 (map Qc2R vx) (map Qc2R vy) s t)%R.
+Proof. exact is_valid_cubic_sound. Qed.
+Print Assumptions C13_is_valid_true_means_positive_jacobian_cubic.
+(* non-vacuity: a concrete quadratic triangle is reported valid by the model *)
+Example C13_valid_example :
+  is_valid_py 2 (map Q2Qc [0; 1#2; 1; 0; 1#2; 0]%Q) (map Q2Qc [0; 0; 0; 1#2; 1#2; 1]%Q) = Some true.
+Proof. vm_compute. reflexivity. Qed.
